@@ -1080,7 +1080,12 @@ func (p *Parser) parseClassElement() ClassElement {
 		if p.tt == OpenBraceToken {
 			prevYield, prevAwait, prevRetrn := p.yield, p.await, p.retrn
 			p.yield, p.await, p.retrn = false, true, false
-			elem := ClassElement{StaticBlock: p.parseBlockStmt("class static block")}
+			// a static block has its own variable scope like a function body: var declarations do not leave it
+			blockStmt := &BlockStmt{}
+			parent := p.enterScope(&blockStmt.Scope, true)
+			blockStmt.List = p.parseStmtList("class static block")
+			p.exitScope(parent)
+			elem := ClassElement{StaticBlock: blockStmt}
 			p.yield, p.await, p.retrn = prevYield, prevAwait, prevRetrn
 			return elem
 		}
